@@ -28,6 +28,12 @@ def scratch():
 
 
 def apply(m, d):
+    if 'patch_abs' in m:
+        subprocess.check_call(['git', 'init', '-q'], cwd=d)
+        r = subprocess.run(['git', 'apply', m['patch_abs']], cwd=d, capture_output=True, text=True)
+        if r.returncode != 0:
+            raise RuntimeError('patch does not apply: ' + r.stderr)
+        return
     if 'patch' in m:
         subprocess.check_call(['git', 'init', '-q'], cwd=d)
         r = subprocess.run(['git', 'apply', os.path.join(HERE, 'mutants', m['patch'])], cwd=d,
